@@ -26,7 +26,7 @@ pub fn run_c01(cx: &mut Cx) { run(cx, Mode::Complete) }
 pub fn run_c02(cx: &mut Cx) { run(cx, Mode::Sound) }
 
 fn run(cx: &mut Cx, mode: Mode) {
-    cx.preemptions_left = cx.ch.choose("preemptions", 3) as u32;
+    cx.preemptions_left = cx.ch.choose("preemptions", 5) as u32;
     let ideal: Shared = Rc::new(RefCell::new(Ideal::default()));
     let issuer = cx.node("issuer");
     let holder = cx.node("holder");
